@@ -7,6 +7,8 @@ NOTE = ("Trusted base: Go type checker, go/ssa, VTA call graph (sound absent ref
         "Decides structural necessary conditions only; the behaviour itself (values for every input/history/schedule) is not decided.")
 
 CLAIMS = {
+ "C18": dict(text="Decides the absence of process-wide mutable state that two decodes could share or race on, as far as it is visible in the code: no package-level variable of the fq module is written (store, map update, delete, in-place sort/copy, through a mutating parameter or capturing closure; interprocedural summaries) outside package initialisation except under sync.Once, under the owner's own mutex, or in registrars callable only from init; registry group resolution and its in-place sorts run only under the Once and registration refuses afterwards; registered default in-args are plain values; Eval works on an interpreter copy with a fresh EvalInstance; slices aliasing the shared read buffer never escape. Does not decide data-race freedom in general nor determinism of output.",
+             technique="SSA ownership analysis: who-may-write package-level variables with interprocedural mutates-through-parameter summaries; who-may-call; escape scan of scratch-buffer aliases", design="DESIGN.md §3 C18"),
  "C01": dict(text="Decides, on every run, structural clauses of the reader plumbing: the io.Seeker contract of every computing SeekBits/Seek per whence arm (polynomial normal form of the stored cursor and returned position), the window clamps and EOF conditions of Section/Limit/Zero/Multi readers and that cursors/limits advance by the bits actually returned, the byte fetch and short-read truncation of IOBitReadSeeker.ReadBitsAt, the read-ahead cache typestate (invalidate after re-positioning, refill bookkeeping, hit window), and that no error of a wrapped reader is dropped in the plumbing packages. Does not decide bit-exactness of Read64/Write64 unaligned arms, readFull stitching or IOReader's carry buffer under arbitrary histories.",
              technique="SSA polynomial normal forms + dominator guards per whence/clamp arm; typestate on cache fields; error-use scan", design="DESIGN.md §3 C01"),
  "C06": dict(text="Static discipline + exact fault classes: DecodeFn only runs inside recoverfn.Run, which swallows exactly recoverable errors; every explicit panic reachable from any of the decode roots has a recoverable type or is a classified exception; no unchecked type assertion in decoder code; no DecodeFn returns an error as its out value; every panicking Sym accessor call is guarded. Decides the panic/recover discipline on every instance in the source, not absence of runtime faults (index/nil/overflow are only covered for the enumerated classes).",
